@@ -36,3 +36,11 @@ claim("C27",
       "was seen before, and satisfies the stake-proportional rule lastSeen + floor(20*total/stake) < round in exact integers with lag <= MaxUint32.",
       "Assumes the evaluator-maintained invariant LastProposed/LastHeartbeat <= round and round < 2^62 (otherwise lastSeen+lag wraps: excluded as an unreachable pre-state, see DESIGN). "
       "Challenge-based absence (ChallengeInterval != 0) is outside this check (ChallengeInterval = 0).")
+
+claim("C15",
+      "AccountHashBuilderV6, ResourcesHashBuilderV6 (+rdGetCreatableHashKind), KvHashBuilderV6, hashBufV6, finishV6 and the CatchpointLabelMakerV6/V7/Current buffers are executed on two ARBITRARY argument tuples "
+      "with crypto.Hash an injective uninterpreted function: equal trie leaf => equal (kind, address, creatable index, encoded data); leaves of different kinds never coincide; equal label pre-image => equal "
+      "block hash, trie root, totals and (per version) state-proof / online-account hashes. KNOWN FINDING (reproduced natively with the real SHA-512/256): KvHashBuilderV6 hashes key||value with no length "
+      "delimiter, so distinct boxes share a leaf; recorded in known_findings.json, every other obligation stays live.",
+      "Encoded blobs are opaque byte strings of symbolic length <= 3 (thorough <= 6); addresses fully symbolic. The truncated (31-byte) digest is idealised as collision free. "
+      "EncodeReflect(totals) is an opaque byte string (reflection is not encodable).")
